@@ -3,8 +3,8 @@
 // new controller, built over the statistic of the first statistics-reusable old controller; consumed old controllers leave the
 // old list so that no controller is handed out twice).
 // The body is extracted from the current source on every run. Rules, controllers, statistics, the generator table and its
-// generators are abstract stand-ins with assumed contracts; `calculate_reuse_index_for` is assumed with the contract the Kani
-// obligations `frm_reuse_index_{2,3}` prove for old lists of length 2-3 (bounded there).
+// generators are abstract stand-ins with assumed contracts; `calculate_reuse_index_for` is extracted and proved too (any list
+// length; rule equality and statistics-reusability enter as uninterpreted predicates, decided field-wise by Kani).
 use vstd::prelude::*;
 verus! {
 pub mod tr {
@@ -42,7 +42,14 @@ impl Controller {
     pub uninterp spec fn rule_spec(&self) -> Arc<Rule>;
     pub uninterp spec fn stat_spec(&self) -> Arc<StandaloneStat>;
     #[verifier::external_body] pub fn stat(&self) -> (r: &Arc<StandaloneStat>) ensures *r == self.stat_spec() { unimplemented!() }
+    #[verifier::external_body] pub fn rule(&self) -> (r: &Arc<Rule>) ensures *r == self.rule_spec() { unimplemented!() }
 }
+/// `old_rule == r` (PartialEq of Arc<Rule> = PartialEq of Rule)
+#[verifier::external_body] pub fn rules_equal(a: &Arc<Rule>, b: &Arc<Rule>) -> (r: bool) ensures r == rule_eq(*a, *b) { unimplemented!() }
+/// `old_rule.is_stat_reusable(r)`
+#[verifier::external_body] pub fn is_stat_reusable(a: &Arc<Rule>, b: &Arc<Rule>) -> (r: bool) ensures r == stat_reusable(*a, *b) { unimplemented!() }
+/// stands for `.iter().enumerate()` (no Verus support): the idx-th element by reference
+#[verifier::external_body] pub fn nth_tc(v: &Vec<AC>, i: usize) -> (r: &AC) requires i < v.len() ensures *r == v@[i as int] { &v[i] }
 impl ControllerGenKey {
     pub fn new(calculate_strategy: CalculateStrategy, control_strategy: ControlStrategy) -> (r: Self)
         ensures r.calculate_strategy == calculate_strategy, r.control_strategy == control_strategy
@@ -87,13 +94,21 @@ pub proof fn l_reuse_index(r: Arc<Rule>, old: Seq<AC>, k: int, bound: int)
     decreases old.len() - k
 { if k < old.len() && k < bound && !stat_reusable(old[k].rule_spec(), r) { l_reuse_index(r, old, k + 1, bound); } }
 
-/// ASSUMED contract (Kani proves it on the real function for lists of 2-3 controllers: frm_reuse_index_{2,3}):
-/// (first equal index or MAX, first statistics-reusable index before it or MAX)
-#[verifier::external_body]
-pub fn calculate_reuse_index_for(r: &Arc<Rule>, old_res_tcs: &Vec<AC>) -> (res: (usize, usize))
-    ensures res.0 as int == eq_index(*r, old_res_tcs@, 0),
-            res.1 as int == reuse_index(*r, old_res_tcs@, 0, eq_index(*r, old_res_tcs@, 0))
-{ unimplemented!() }
+/// characterisation => recursive definition (used by the extracted calculate_reuse_index_for)
+pub proof fn l_eq_char(r: Arc<Rule>, old: Seq<AC>, k: int, e: int)
+    requires 0 <= k <= e <= old.len(), old.len() < MAX,
+             forall|j: int| #![auto] k <= j < e ==> !rule_eq(old[j].rule_spec(), r),
+             e < old.len() ==> rule_eq(old[e].rule_spec(), r),
+    ensures eq_index(r, old, k) == (if e < old.len() { e } else { MAX as int })
+    decreases e - k
+{ if k < e { l_eq_char(r, old, k + 1, e); } }
+pub proof fn l_reuse_char(r: Arc<Rule>, old: Seq<AC>, k: int, bound: int, e: int)
+    requires 0 <= k, old.len() < MAX, k <= e,
+             forall|j: int| #![auto] k <= j < e && j < old.len() && j < bound ==> !stat_reusable(old[j].rule_spec(), r),
+             (e < old.len() && e < bound && stat_reusable(old[e].rule_spec(), r)) || e >= old.len() || e >= bound,
+    ensures reuse_index(r, old, k, bound) == (if e < old.len() && e < bound { e } else { MAX as int })
+    decreases e - k
+{ if k < e && k < old.len() && k < bound { l_reuse_char(r, old, k + 1, bound, e); } }
 
 /// what handling one rule does to (new list, remaining old list)
 pub open spec fn step(res: &String, rule: Arc<Rule>, st: (Seq<AC>, Seq<AC>)) -> (Seq<AC>, Seq<AC>) {
@@ -166,6 +181,51 @@ use tr::*;
 use std::sync::Arc;
 
 pub exec static GEN_FUN_MAP: GenMapLock ensures true { GenMapLock { p: 0 } }
+
+// ---- extracted from core/flow/rule_manager.rs (extract-fn) ----
+fn calculate_reuse_index_for(r: &Arc<Rule>, old_res_tcs: &Vec<Arc<Controller>>) -> (res: (usize, usize))
+    requires
+        old_res_tcs@.len() < MAX,
+    ensures
+        res.0 as int == eq_index(*r, old_res_tcs@, 0),
+        res.1 as int == reuse_index(*r, old_res_tcs@, 0, eq_index(*r, old_res_tcs@, 0)),
+{
+    // the index of equivalent rule in old traffic shaping controller slice
+    let mut eq_idx = usize::MAX;
+    // the index of statistic reusable rule in old traffic shaping controller slice
+    let mut reuse_stat_idx = usize::MAX;
+
+    let mut nxt: usize = 0; while nxt < old_res_tcs.len() 
+        invariant_except_break
+            eq_idx == MAX,
+
+        invariant
+            nxt <= old_res_tcs.len(),
+            old_res_tcs@.len() < MAX,
+            eq_idx != MAX ==> eq_idx < nxt,
+            forall|j: int| #![auto] 0 <= j < nxt && (eq_idx == MAX || j < eq_idx) ==> !rule_eq(old_res_tcs@[j].rule_spec(), *r),
+            reuse_stat_idx == MAX ==> forall|j: int| #![auto] 0 <= j < nxt && (eq_idx == MAX || j < eq_idx) ==> !stat_reusable(old_res_tcs@[j].rule_spec(), *r),
+            reuse_stat_idx != MAX ==> reuse_stat_idx < nxt && (eq_idx == MAX || reuse_stat_idx < eq_idx) && stat_reusable(old_res_tcs@[reuse_stat_idx as int].rule_spec(), *r) && forall|j: int| #![auto] 0 <= j < reuse_stat_idx ==> !stat_reusable(old_res_tcs@[j].rule_spec(), *r),
+        ensures
+            eq_idx != MAX ==> eq_idx < old_res_tcs.len() && rule_eq(old_res_tcs@[eq_idx as int].rule_spec(), *r),
+            eq_idx == MAX ==> nxt == old_res_tcs.len(),
+        decreases old_res_tcs.len() - nxt,
+    { let idx = nxt; let old_tc = nth_tc(old_res_tcs, idx); nxt += 1;
+        let old_rule = old_tc.rule();
+        if rules_equal(old_rule, r) {
+            // break if there is equivalent rule
+            eq_idx = idx;
+            break;
+        }
+        // search the index of first stat reusable rule
+        if reuse_stat_idx == usize::MAX && is_stat_reusable(old_rule, r) {
+            reuse_stat_idx = idx;
+        }
+    }
+    proof { let e = if eq_idx == MAX { old_res_tcs@.len() as int } else { eq_idx as int }; l_eq_char(*r, old_res_tcs@, 0, e); let bound = eq_index(*r, old_res_tcs@, 0); let q = if reuse_stat_idx == MAX { old_res_tcs@.len() as int } else { reuse_stat_idx as int }; l_reuse_char(*r, old_res_tcs@, 0, bound, q); }
+        (eq_idx, reuse_stat_idx)
+}
+
 
 // ---- extracted from core/flow/rule_manager.rs (extract-fn) ----
 pub fn build_resource_traffic_shaping_controller(
